@@ -238,7 +238,7 @@ func (e *explorer) obsName(d diff) string {
 func (e *explorer) goTest(path []int, d diff) string {
 	obs := d.heldName
 	if d.observer >= 0 {
-		obs = "v" + e.acts[d.observer].Expr
+		obs = e.acts[d.observer].GoExpr("v")
 	}
 	var body strings.Builder
 	for _, l := range strings.Split(e.in.src, "\n") {
@@ -246,7 +246,7 @@ func (e *explorer) goTest(path []int, d diff) string {
 	}
 	fmt.Fprintf(&body, "\tbefore := show(%s)\n", obs)
 	for _, ai := range path {
-		fmt.Fprintf(&body, "\t_ = show(v%s) // read-only call\n", e.acts[ai].Expr)
+		fmt.Fprintf(&body, "\t_ = show(%s) // read-only call\n", e.acts[ai].GoExpr("v"))
 	}
 	fmt.Fprintf(&body, "\tafter := show(%s)\n", obs)
 	body.WriteString("\tif before != after {\n\t\tt.Fatalf(\"a read-only call changed the value:\\n before %s\\n after  %s\", before, after)\n\t}\n")
@@ -259,7 +259,11 @@ func (e *explorer) goTest(path []int, d diff) string {
 			fmt.Fprintf(&b, "\t%q\n", im[1])
 		}
 	}
-	b.WriteString(")\n\nfunc show(a ...any) string { return fmt.Sprintf(\"%#v\", a) }\n\nfunc TestC20Replay(t *testing.T) {\n")
+	b.WriteString(")\n\nfunc show(a ...any) string { return fmt.Sprintf(\"%#v\", a) }\n\n")
+	if strings.Contains(body.String(), "first(") {
+		b.WriteString("func first[T any](v T, _ ...any) T { return v }\n\n")
+	}
+	b.WriteString("func TestC20Replay(t *testing.T) {\n")
 	b.WriteString(body.String())
 	b.WriteString("}\n")
 	return b.String()
@@ -461,7 +465,6 @@ func (e *explorer) explore(b bounds) stats {
 	// stage B (only when something moved): exact attribution, every observation on its own fresh replay
 	if dirty {
 		for _, a := range okActs {
-			e.paths++
 			out := e.isolated([]int{a}, okActs)
 			if out.panic != nil {
 				e.reportPanic([]int{a}, out)
@@ -496,10 +499,22 @@ func (e *explorer) explore(b bounds) stats {
 	// report level-1 violations, deepest receiver only: a method of a containing value that changes it
 	// because a method of a contained value does is the same defect
 	for _, x := range bads {
+		ax := e.acts[x.a]
 		sub := false
 		for _, y := range bads {
-			if y.a != x.a && isPrefix(e.acts[x.a].Prefix(), e.acts[y.a].Prefix()) {
-				sub = true
+			ay := e.acts[y.a]
+			if y.a == x.a || ay.Calls != 1 {
+				continue
+			}
+			switch {
+			case ax.Calls == 1 && isPrefix(ax.Prefix(), ay.Prefix()):
+				sub = true // a method of a value contained in x's receiver does it
+			case ax.Calls > 1 && ay.Method == ax.Method:
+				sub = true // the same method is reported on a directly reachable receiver
+			case ax.Calls > 1 && isPrefix(ay.Steps, ax.Steps):
+				sub = true // the accessor the composite starts with does it alone
+			}
+			if sub {
 				break
 			}
 		}
